@@ -47,8 +47,8 @@ def oracle(script, r, closed_run, threshold, sleep_sec, max_delay):
         if kind == "attempt":
             if live:
                 return f"attempt {arg} started at t={t} while connection {sorted(live)} is still live"
-            if tclose is not None and (t, it) > tclose:
-                return f"connection attempt started at t={t} after close() at t={tclose[0]}"
+            if tclose is not None:      # events are recorded in execution order
+                return f"connection attempt started at t={t} (loop iteration {it}) after close() at t={tclose[0]} (iteration {tclose[1]})"
             if last_fail_time is not None and nfail > 0:
                 need = min(2 ** (nfail - 1), max_delay)
                 if t < last_fail_time + need:
